@@ -50,6 +50,23 @@ def _init_all_zero():
 
 _init_all_zero()
 
+def simple_jobs(mon, qn, tn, par_n=None, witness_dir=None, extra=None):
+    """Sharded serial children + (optionally) one 4-thread child with all cut-offs at 0."""
+    def jobs(tier, seed, bin_dir, replay):
+        if replay:
+            return [eggmon(bin_dir, "exec", "replay", seed, tier, extra={"file": replay})]
+        js = shards(bin_dir, mon, seed, tier, qn, tn, extra=extra)
+        if witness_dir:
+            js[0]["argv"] += ["--witness-dir", os.path.join(VERIF, witness_dir)]
+        if par_n:
+            n = par_n[0] if tier == "quick" else par_n[1]
+            js.append(eggmon(bin_dir, mon, f"{mon}-par4", seed * 1000 + 99, tier, n=n, threads=4, env=ALL_ZERO, extra=extra))
+        return js
+    return jobs
+
+
+VERIF = os.path.dirname(os.path.dirname(os.path.abspath(__file__)))
+
 PLANS = {
     "C04": {
         "jobs": c04_jobs,
@@ -64,6 +81,44 @@ PLANS = {
             "hidden (compiler-generated) tables are not inspected",
         ],
     },
+}
+
+PLANS["C03"] = {
+    "jobs": simple_jobs("c03", 3000, 150000, par_n=(300, 15000)),
+    "level": "exploration",
+    "technique": "differential runtime monitor: seminaive vs naive e-graph in lock-step, canonical dump compared after every iteration",
+    "level_text": "Thousands of generated monotone histories (top-level writes, rule declarations and runs of different rulesets interleaved, congruence chains, containers, :subsume rewrites) are run on a seminaive and a naive e-graph step by step; after every iteration the canonical dumps (ids renamed by least term) must be equal. Serial and 4-thread/cut-off-0 configurations.",
+    "level_note": "Engine compared with itself: a defect common to both modes is invisible here (C01/C02 cover that). Canonical naming uses least terms; classes without any term are named by colour refinement (sound, not complete).",
+    "floors": {"quick": {"iterations_compared": 5000, "histories_with_rule_progress": 300}, "thorough": {"iterations_compared": 200000, "histories_with_rule_progress": 10000}},
+    "assumptions": ["dump via public read API", "generator grammar bounds the reach"],
+}
+PLANS["C08"] = {
+    "jobs": simple_jobs("c08", 1600, 60000, par_n=(200, 5000)),
+    "level": "exploration",
+    "technique": "differential runtime monitor: P;push;Q;pop;R vs P;R and clone-vs-fresh, outputs and canonical dumps compared after every command",
+    "level_text": "Generated triples (P,Q,R) with Q declaring fresh sorts/functions/rulesets/rules, running, failing and nesting push/pop, and R re-declaring Q's names and probing (print-size, print-function, extract, check, runs). Every R command must behave identically with and without the bracket; clone and original are driven apart and each compared with a fresh e-graph.",
+    "level_note": "Outputs are compared modulo machine-generated @-symbol counters (pop keeps the symbol generator by design). Overall run statistics are not compared (pop keeps them by design).",
+    "floors": {"quick": {"r_commands_compared": 10000, "clone_pairs": 500}, "thorough": {"r_commands_compared": 500000, "clone_pairs": 20000}},
+    "assumptions": ["dump via public read API"],
+}
+PLANS["C10"] = {
+    "jobs": simple_jobs("c10", 1200, 60000, par_n=(100, 3000)),
+    "level": "exploration",
+    "technique": "metamorphic runtime monitor: schedule laws on clones + literal reference scheduler driving single iterations",
+    "level_text": "For each generated program, pairs of schedules related by the stated laws are run on clones and must end in equal canonical dumps; a reference scheduler in the harness steps rulesets one iteration at a time (stop when the dump does not change), checks :until before every iteration, and re-runs saturated schedules to confirm a fixpoint and updated=false. Missed progress (dump changed, updated=false) is a violation; updated=true with an unchanged dump is only counted.",
+    "level_note": "'changes nothing' is decided by canonical-dump equality; removal-only iterations do not arise in the generated (monotone) programs.",
+    "floors": {"quick": {"law_instances": 5000, "fixpoint_rechecks": 300}, "thorough": {"law_instances": 250000, "fixpoint_rechecks": 15000}},
+    "assumptions": ["dump via public read API"],
+}
+PLANS["C11"] = {
+    "jobs": simple_jobs("c11", 400, 24000, witness_dir="witnesses/C11"),
+    "level": "translation_validation",
+    "technique": "translation validation by differential execution: plain vs term-encoding vs proofs per command, plus print/re-parse/re-run of the desugared encoded program",
+    "level_text": "Every generated program accepted by program_supports_proofs is executed command by command in the three modes; Ok/Err class and the projection upstream declares stable (check outcomes, print-size, extraction cost) must agree; the desugared encoded program is printed, re-parsed and re-run on a plain engine. Six known encoder divergences (delete family, subsume of absent rows, container literal inference, subsumed flag lost on container rebuild) are excluded from generation and replayed as fixed witnesses.",
+    "level_note": "Compares exactly the projection upstream's own cross-treatment snapshot uses; print-function and extract-variants outputs are not compared; checks are not generated in programs that use subsume (documented upstream limitation).",
+    "floors": {"quick": {"programs_supported": 300, "desugared_reruns": 500}, "thorough": {"programs_supported": 15000, "desugared_reruns": 30000}},
+    "coverage_extra": lambda c, t: {"programs": int(c.get("programs_supported", 0)), "disagreements_checked": int(c.get("disagreements", 0))},
+    "assumptions": ["plain engine is the reference"],
 }
 
 NOT_APPLICABLE = {}
